@@ -149,7 +149,8 @@ package litefs
 //@   ensures   err == nil ==> fieldKind(StreamFrameTypeLTX, k) == 0
 //@   ensures   err == nil <==> e == nil && k == 3
 //@   ensures   e == io.EOF ==> err == io.ErrUnexpectedEOF
-//@   ensures   e != io.EOF ==> err == e
+//@   ensures   e != io.EOF ==> err == e || (e == nil && err != nil && vLen > MaxStreamNameSize)
+//@   ensures   e == nil && vLen > MaxStreamNameSize ==> err != nil
 //@   ensures   err == nil ==> f.Size == int64(vSize) && len(f.Name) == int(vLen)
 //@   ensures   err == nil && 0 <= anyIdx() && anyIdx() < len(f.Name) ==> f.Name[anyIdx()] == bj
 //@   ensures   k < 1 || e != nil && k == 1 ==> f.Size == old(f.Size)
@@ -192,7 +193,8 @@ package litefs
 //@   ensures   err == nil ==> fieldKind(StreamFrameTypeDropDB, k) == 0
 //@   ensures   err == nil <==> e == nil && k == 2
 //@   ensures   e == io.EOF ==> err == io.ErrUnexpectedEOF
-//@   ensures   e != io.EOF ==> err == e
+//@   ensures   e != io.EOF ==> err == e || (e == nil && err != nil && vLen > MaxStreamNameSize)
+//@   ensures   e == nil && vLen > MaxStreamNameSize ==> err != nil
 //@   ensures   err == nil ==> len(f.Name) == int(vLen)
 //@   ensures   err == nil && 0 <= anyIdx() && anyIdx() < len(f.Name) ==> f.Name[anyIdx()] == bj
 //@   ensures   err != nil ==> f.Name == old(f.Name)
@@ -233,7 +235,8 @@ package litefs
 //@   ensures   err == nil ==> fieldKind(StreamFrameTypeHandoff, k) == 0
 //@   ensures   err == nil <==> e == nil && k == 2
 //@   ensures   e == io.EOF ==> err == io.ErrUnexpectedEOF
-//@   ensures   e != io.EOF ==> err == e
+//@   ensures   e != io.EOF ==> err == e || (e == nil && err != nil && vLen > MaxStreamNameSize)
+//@   ensures   e == nil && vLen > MaxStreamNameSize ==> err != nil
 //@   ensures   err == nil ==> len(f.LeaseID) == int(vLen)
 //@   ensures   err == nil && 0 <= anyIdx() && anyIdx() < len(f.LeaseID) ==> f.LeaseID[anyIdx()] == bj
 //@   ensures   err != nil ==> f.LeaseID == old(f.LeaseID)
@@ -276,7 +279,8 @@ package litefs
 //@   ensures   err == nil ==> fieldKind(StreamFrameTypeHWM, k) == 0
 //@   ensures   err == nil <==> e == nil && k == 3
 //@   ensures   e == io.EOF ==> err == io.ErrUnexpectedEOF
-//@   ensures   e != io.EOF ==> err == e
+//@   ensures   e != io.EOF ==> err == e || (e == nil && err != nil && vLen > MaxStreamNameSize)
+//@   ensures   e == nil && vLen > MaxStreamNameSize ==> err != nil
 //@   ensures   err == nil ==> uint64(f.TXID) == vTXID && len(f.Name) == int(vLen)
 //@   ensures   err == nil && 0 <= anyIdx() && anyIdx() < len(f.Name) ==> f.Name[anyIdx()] == bj
 //@   ensures   k < 1 || e != nil && k == 1 ==> f.TXID == old(f.TXID)
